@@ -131,6 +131,7 @@ const childEnv = "VERIF_CODEC_CHILD"
 
 // Input is a byte string, possibly given as unit^count ++ suffix (deep nesting without megabytes of hex).
 type Input struct {
+	Prefix []byte
 	Unit   []byte
 	Count  int
 	Suffix []byte
@@ -142,17 +143,31 @@ func (in Input) Bytes() []byte {
 	if in.Count == 0 {
 		return in.Suffix
 	}
-	return append(bytes.Repeat(in.Unit, in.Count), in.Suffix...)
+	return append(append(append([]byte{}, in.Prefix...), bytes.Repeat(in.Unit, in.Count)...), in.Suffix...)
 }
 
 func (in Input) String() string {
 	if in.Count == 0 {
 		return h.Hex(in.Suffix)
 	}
+	if len(in.Prefix) > 0 {
+		return fmt.Sprintf("pre:%s:%s:%d:%s", h.Hex(in.Prefix), h.Hex(in.Unit), in.Count, h.Hex(in.Suffix))
+	}
 	return fmt.Sprintf("rep:%s:%d:%s", h.Hex(in.Unit), in.Count, h.Hex(in.Suffix))
 }
 
 func ParseInput(s string) (Input, error) {
+	if strings.HasPrefix(s, "pre:") {
+		p := strings.Split(s, ":")
+		if len(p) != 5 {
+			return Input{}, fmt.Errorf("bad input %q", s)
+		}
+		n, err := strconv.Atoi(p[3])
+		if err != nil {
+			return Input{}, err
+		}
+		return Input{Prefix: unhex(p[1]), Unit: unhex(p[2]), Count: n, Suffix: unhex(p[4])}, nil
+	}
 	if strings.HasPrefix(s, "rep:") {
 		p := strings.Split(s, ":")
 		if len(p) != 4 {
